@@ -221,6 +221,7 @@ fn base_spec(kind: Kind) -> OrderSpec {
         lastref: 99,
         offset: -5,
         peg: 2,
+        own_price: None,
     }
 }
 
